@@ -4,6 +4,7 @@ pub mod c03;
 pub mod c04;
 pub mod c05;
 pub mod c06;
+pub mod c07;
 pub mod c15;
 pub mod c16;
 
@@ -42,6 +43,7 @@ pub fn run(prop: &str, tier: Tier, seed: u64, out: &str) -> bool {
         "C04" => c04::run(tier, seed, out),
         "C05" => c05::run(tier, seed, out),
         "C06" => c06::run(tier, seed, out),
+        "C07" => c07::run(tier, seed, out),
         "C09" => baseline_hist::run(baseline_hist::Which::C09, tier, seed, out),
         "C10" => baseline_hist::run(baseline_hist::Which::C10, tier, seed, out),
         "C11" => baseline_hist::run(baseline_hist::Which::C11, tier, seed, out),
